@@ -1,14 +1,17 @@
 SPEC = dict(
     props_file="C03",
     legs=[dict(family="hll", focus="union", oracles=["union_ok"], profiles=["debug", "release"],
-               mask=[10, 11, 12, 13, 14, 15, 16, 17, 18, 20], n_quick=120, n_thorough=1500)],
+               mask=[10, 11, 12, 13, 14, 15, 16, 17, 18, 20, 22], n_quick=120, n_thorough=1500, panic_is_violation=True)],
     level_text="Theorems (Props/C03.v) over an executable Gallina model of hll/union.rs and of the Array8 bulk functions it "
                "uses (Model/HllUnion.v, one definition per Rust function: update dispatch, clone fast path, coupon replay, "
                "copy_or_downsample, merge_array_same_lgk / with_downsample, gadget shrink, promote-and-merge, "
                "rebuild_cached_values, to_sketch with convert_array8_to_type, update_value, reset), on top of the C02 model. "
                "Inputs are arbitrary well-formed source sketches (SrcOK): any lg_k, any target type, list / set / array, "
-               "ANY estimator state (in order or out of order) -- in-process, deserialized, foreign and union-produced "
-               "sketches alike. Proved for all lg_max in 4..21 and all operation sequences (update, update_value, reset "
+               "ANY estimator state (in order or out of order). SrcOK is proved for sketches built by new + updates "
+               "(c03_stream_is_source), their out-of-order copies (c03_estimator_state_irrelevant), results of to_sketch "
+               "(c03_to_sketch_type_independent) and for what HllSketch::deserialize returns on a canonical image -- every "
+               "image the crate / Java / C++ writes (c03_deserialized_is_source); accepted NON-canonical images (a set image "
+               "with fewer than 8 coupons, an Hll4 image with no register at cur_min) are outside the theorems. Proved for all lg_max in 4..21 and all operation sequences (update, update_value, reset "
                "interleaved): c03_union_refines -- no panic site is reached and the gadget shows exactly the Spec: "
                "coupon-set union at lg_max while sparse (mode = function of the number of distinct coupons), otherwise "
                "register j = max over all merged coupons folded to slot j mod 2^lg with lg = min(lg_max, lg_k of the "
@@ -30,8 +33,13 @@ SPEC = dict(
                "checked on the crate by the oracle for every generated case. kxq0/kxq1 after rebuild_cached_values are float sums "
                "in slot order: mirrored bit-for-bit by the model and tied by correspondence, no rounding analysis. "
                "Deserialized inputs are represented in the correspondence run by array-mode sketches round-tripped through "
-               "serialize/deserialize with the OUT_OF_ORDER flag forced (what Java/C++ unions emit); list-mode images are "
-               "excluded there because of defect D1 (C11).",
+               "serialize/deserialize with the OUT_OF_ORDER flag forced (what Java/C++ unions emit); foreign and malformed-but-"
+               "accepted images of every mode are merged into a union in the C13 / C14 legs (op 30). The union's own "
+               "estimate()/bounds and those of to_sketch(t) are called on the crate only (ops 19, 21: the composite estimator is "
+               "not modelled) and judged by the oracle; a union result is also sent through serialize / deserialize / serialize "
+               "(op 22): the copy must show the union's Spec state and re-serialize to the same bytes (before fix e763c00 a copy "
+               "of an in-order Hll8 source was out of order with a non-zero HIP accumulator and its image changed). Any panic of "
+               "the crate in a case is a violation.",
     technique="Coq proof: gadget invariant by induction over arbitrary operation sequences, reusing the C02 lock-step "
               "invariant with a parametric array-mode side condition; register files compared through folding lemmas "
               "(max over s = j mod 2^lg); semilattice laws from the set-determined Spec; + differential correspondence "
@@ -40,7 +48,7 @@ SPEC = dict(
              "the composite estimator (ln, cubic interpolation over the composite tables) is not modelled: equality of "
              "estimates/bounds across types is proved through equality of ALL its inputs and checked on the crate",
              "Rust fixed-width arithmetic outside the model (unbounded N); register values <= 63 by the invariant"],
-    assumptions=["source sketches are well formed (SrcOK): what HllSketch::new + updates, HllUnion::to_sketch and a "
-                 "faithful deserializer produce; register values in 0..63",
+    assumptions=["source sketches are well formed (SrcOK): what HllSketch::new + updates, HllUnion::to_sketch and "
+                 "HllSketch::deserialize (canonical images) produce -- each proved; register values in 0..63",
                  "4 <= lg_max_k <= 21"],
 )
